@@ -351,7 +351,7 @@ func runUnit(c *CheckDef, tier string, seed uint64, i int) *UnitReport {
 	}()
 	limit := c.UnitLimit
 	if limit == 0 {
-		limit = 120 * time.Second
+		limit = 300 * time.Second
 	}
 	select {
 	case <-done:
